@@ -150,8 +150,12 @@ def replica(k):
 
 
 def run_suite(r):
-    rc, out = sh("CARGO_NET_OFFLINE=true CARGO_TARGET_DIR=%s/target_tests cargo test --workspace --offline --no-fail-fast 2>&1" % r,
-                 cwd=r + "/repo", timeout=1800)
+    try:
+        rc, out = sh("CARGO_NET_OFFLINE=true CARGO_TARGET_DIR=%s/target_tests timeout -k 5 600 cargo test --workspace --offline --no-fail-fast 2>&1" % r,
+                     cwd=r + "/repo", timeout=900)
+    except subprocess.TimeoutExpired:
+        out = ""
+    sh("pkill -f %s/target_tests/debug/deps" % r)      # a mutant that makes a test loop for ever
     if "error[" in out or "error: could not compile" in out or "aborting due to" in out:
         return "stillborn", out[-400:]
     bad = [l for l in out.split("\n") if l.startswith("test ") and l.rstrip().endswith("FAILED") and FLAKY not in l]
